@@ -2,11 +2,12 @@ INIT Init
 NEXT Next
 CONSTANTS
   ValChars = {97, 49, 45, 95}
-  MaxLy = 3
+  MaxLy = 2
   QChars = {33, 84, 85, 126}
   MaxUmi = 2
   Indexes = {"single", "dual", "empty"}
   Limit = 60
+  Shapes = {"r", "rr", "rn", "nr"}
   RequireSafe = TRUE
   Variant = "design"
 INVARIANT Inv_C04_QTotal
